@@ -74,6 +74,11 @@ mut("c13_dag_full_global_weights", "C13", "sempler/generators.py",
     "    A = np.triu(np.ones((p, p)), k=1)\n    weights = np.random.uniform(w_min, w_max, size=A.shape)",
     "weights drawn from the global stream; w_min < w_max and a perturbation between calls")
 
+mut("c13_nd_algorithm_switch_after_200_calls", "C13", "sempler/normal_distribution.py",
+    "        np.random.seed(random_state) if random_state is not None else None\n        return np.random.multivariate_normal(self.mean, self.covariance, size=n)",
+    "        np.random.seed(random_state) if random_state is not None else None\n        self._times_sampled = getattr(self, '_times_sampled', 0) + 1\n        if self._times_sampled > 200:\n            # 'hot' distribution: eigen-factor route\n            vals, vecs = np.linalg.eigh((self.covariance + self.covariance.T) / 2)\n            factor = vecs * np.sqrt(np.clip(vals, 0, None))\n            return np.random.standard_normal((n, self.p)) @ factor.T + self.mean\n        return np.random.multivariate_normal(self.mean, self.covariance, size=n)",
+    "the same distribution object sampled more than 200 times: only a burst (long session) reaches it")
+
 # ---------------------------------------------------------------- C14
 mut("c14_lganm_W_nocopy", "C14", "sempler/lganm.py",
     "        W = self.W.copy()", "        W = self.W",
